@@ -15,6 +15,9 @@ RULE = ("exhaustive: every string of length <=6 (thorough: <=7) over {narrow 'a'
         "positions of .chunks (f*2, f*3, f+f, f+f+f, join with repeated item / repeated separator, whole-run slices "
         "concatenated) for every string <=3 x <=1-cut layouts x columns 2..4, plus objects from random public-API programs "
         "with interleaved observations (common.api_pool); "
+        "INTERLEAVED consumption of the lazy generator: the same FmtStr at two column widths consumed in lock-step, and a "
+        "generator suspended after 1..2 next() calls while another over the same f / f+tail / f*2 (sharing its first Chunk "
+        "object) is fully consumed, then resumed - every produced line list judged and tied; "
         "tie-only extras: columns in {-1,0,1}, control characters, random longer strings with columns up to 7, and "
         "sequences of ChunkSplitter.request(max_width) calls incl. max_width<1. non-trivial = distinct case whose string "
         "contains a wide or combining character, or that raises")
@@ -28,7 +31,10 @@ LEVEL_NOTE = ("theorems are for EVERY wcwidth function with values 0/1/2 on the 
               "the wire codec; cwcwidth is a parameter whose values are read live per run")
 ASSUMPTIONS = ["columns >= 2 and characters of width 0, 1 or 2 (the library raises ValueError otherwise; tie-checked only)",
                "lines are compared with the reference wrap per character up to the placement of zero-width characters "
-               "(a combining character after a full line may stay on it or open the next line)"]
+               "(a combining character after a full line may stay on it or open the next line)",
+               "the model is the fully iterated list of lines; the laziness of the generator (state kept between next() calls, "
+               "several generators alive at once over FmtStr values sharing Chunk objects) is covered by the interleaved-"
+               "consumption correspondence/oracle cases only, not by a theorem"]
 
 
 def mk_cases(ctx):
@@ -61,6 +67,29 @@ def mk_cases(ctx):
             shared.append(dict(op="wasplit", f=wire.fmt_chunks(obj), pool=[seed, i], columns=r.choice([2, 2, 3, 4, 5])))
     ctx.exhaustive.append("C11: %d cases on FmtStr values sharing Chunk objects by identity / built by API programs" % len(shared))
     cases += shared
+    inter = []
+    bases = []
+    for n in range(5 if ctx.thorough else 4):
+        for tup in itertools.product(ALPHA3, repeat=n):
+            s = "".join(tup)
+            bases += cut_layouts(s, PALETTE, max_cuts=1)
+    for _ in range(600 if ctx.thorough else 150):
+        lens = [r.randint(1, 5) for _ in range(r.randint(1, 3))]
+        bases.append([("".join(r.choice(ALPHA3 + ("a", "b")) for _ in range(k)), dict(PALETTE[(i + 1) % len(PALETTE)]))
+                      for i, k in enumerate(lens)])
+    for base in bases:
+        for c1, c2 in ((2, 3), (3, 4), (4, 2), (3, 3)):
+            for which in (0, 1):
+                sc = dict(kind="zip", base=base, cols=[c1, c2], which=which)
+                inter.append(dict(op="wasplit", f=judged_chunks(sc), columns=[c1, c2][which], inter=sc))
+        for other in ("same", "tail", "mul2"):
+            for k in (1, 2):
+                for c1, c2 in ((2, 3), (3, 2), (4, 6)):
+                    for which in (0, 1):
+                        sc = dict(kind="suspend", base=base, other=other, k=k, cols=[c1, c2], which=which)
+                        inter.append(dict(op="wasplit", f=judged_chunks(sc), columns=[c1, c2][which], inter=sc))
+    ctx.exhaustive.append("C11: %d line lists produced under interleaved consumption of the lazy generators" % len(inter))
+    cases += inter
     alpha = list(ALPHA3) + ["b", " ", "\n", "語"]
     for _ in range(6000 if ctx.thorough else 1500):
         lens = [r.randint(0, 5) for _ in range(r.randint(0, 5))]
@@ -80,7 +109,49 @@ def line(c):
     return "wasplit %s %s %d" % (env_fields(text_of(c["f"])), wire.enc_chunks(c["f"]), c["columns"])
 
 
+def _scenario_objects(sc):
+    """-> (fs, other): the two real FmtStr values of an interleaving scenario; they share Chunk objects"""
+    fs = mk_fmt(sc["base"])
+    if sc["kind"] == "zip" or sc["other"] == "same":
+        return fs, fs
+    if sc["other"] == "tail":
+        return fs, fs + "tail"
+    return fs, fs * 2
+
+
+def judged_chunks(sc):
+    """wire form of the FmtStr whose lines the case judges"""
+    return wire.fmt_chunks(_scenario_objects(sc)[sc["which"]])
+
+
+def run_scenario(sc):
+    """-> (lines of generator 0, lines of generator 1) under the interleaved consumption the scenario describes"""
+    fs, other = _scenario_objects(sc)
+    c1, c2 = sc["cols"]
+    g0, g1 = fs.width_aware_splitlines(c1), other.width_aware_splitlines(c2)
+    out0, out1 = [], []
+    if sc["kind"] == "zip":                   # lock-step, like zip(), but each generator is drained
+        live = [(g0, out0), (g1, out1)]
+        while live:
+            for g, out in list(live):
+                try:
+                    out.append(next(g))
+                except StopIteration:
+                    live.remove((g, out))
+    else:                                      # suspend g0 after k lines, drain g1, resume g0
+        for _ in range(sc["k"]):
+            try:
+                out0.append(next(g0))
+            except StopIteration:
+                break
+        out1.extend(g1)
+        out0.extend(g0)
+    return out0, out1
+
+
 def run_impl(c):
+    if "inter" in c:
+        return run_scenario(c["inter"])[c["inter"]["which"]]
     return list(realize(c).width_aware_splitlines(c["columns"]))
 
 
